@@ -73,6 +73,8 @@ def run_history(events, store_kind="local", keep_dir=False, hashseed="0", extra_
             cur["actions"].append(act)
             if act["a"] == "setvar":
                 cur_prog["modules"][act["mod"]]["vars"][act["name"]] = act["value"]
+            elif act["a"] == "reprog":
+                cur_prog = copy.deepcopy(act["prog"])
             elif act["a"] != "rawfile":
                 model_actions.append(action_coq(cur_prog, act))
             records.append({"act": act})
@@ -104,7 +106,7 @@ def run_history(events, store_kind="local", keep_dir=False, hashseed="0", extra_
     mi = 0
     for rec, io, ro in zip(records, impl_out, ref_out):
         rec["impl"], rec["ref"] = io, ro
-        if rec["act"]["a"] not in ("setvar", "rawfile") and do_model:
+        if rec["act"]["a"] not in ("setvar", "rawfile", "reprog") and do_model:
             parts = mouts[mi].split("#")
             mi += 1
             rec["model"] = {"out": parts[0], "log": [x for x in parts[1].split(",") if x], "sigs": parts[2],
@@ -125,7 +127,7 @@ def impl_obs(rec):
 
 def compare(rec):
     """Differences between implementation and model for one action (empty list = agree)."""
-    if rec["act"]["a"] in ("setvar", "rawfile") or "model" not in rec:
+    if rec["act"]["a"] in ("setvar", "rawfile", "reprog") or "model" not in rec:
         return []
     o, m = impl_obs(rec), rec["model"]
     diffs = []
